@@ -57,7 +57,7 @@ func runSolver(sd solverDef, body string, file string, timeoutS int) solveResult
 	case "unsat", "sat", "unknown", "timeout":
 		st = first
 	default:
-		if ctx.Err() != nil {
+		if ctx.Err() != nil || strings.Contains(o, "interrupted by timeout") {
 			st = "timeout"
 		} else if err != nil && strings.Contains(o, "unknown") {
 			st = "unknown"
